@@ -40,6 +40,12 @@ def cases(tier, seed):
             opts["search_n_try"] = 0
             land = str(rng.choice(["wl1", "quad", "rosen", "bowl4"], p=[0.4, 0.3, 0.15, 0.15]))
             D = max(D, 2)
+        if rng.random() < 0.25:
+            # small evaluation cache and/or larger initial design: the log is re-allocated while the initial
+            # design is being evaluated
+            opts["cache_size"] = int(rng.choice([1, 2, 4, 10]))
+            if rng.random() < 0.6:
+                opts["fun_eval_start"] = int(rng.choice([8, 16, 32]))
         cons = str(rng.choice(["none", "ball", "halfspace", "annulus"], p=[0.7, 0.1, 0.1, 0.1]))
         x0mode = str(rng.choice(["in", "none", "onlb", "onub", "outpl"], p=[0.5, 0.15, 0.15, 0.1, 0.1]))
         if cons != "none":
